@@ -32,3 +32,12 @@ package net
 //@ func (*connCounter).incBytesOut
 //@   prop C05 C20
 //@   modifies atomu64
+
+//@ func New
+//@   prop C05
+//@   modifies nothing
+//@   ensures @wrapper result != nil
+
+//@ func (*Conn).SetReadTimeout
+//@   prop C05
+//@   modifies c.readTimeout
